@@ -413,6 +413,10 @@ DFloatSprint(String buf, DFloat d)
 #endif
 	}
 
+	/* %#g leaves a bare point after 17 integer digits: "1e16." cannot be read back. */
+	if (buf[0] && buf[strlen(buf) - 1] == '.')
+		strcat(buf, "0");
+
 	return buf;
 }
 
